@@ -216,6 +216,22 @@ CEval(e, rd) ==
     [] e.k = "ifexp" ->
          LET c == CEval(e.c, rd) IN
          IF CIsErr(c) THEN c ELSE IF CTruth(c) THEN CEval(e.a, rd) ELSE CEval(e.b, rd)
+    [] e.k = "select" ->   \* cohdl.select_with(arg, {key: value, ...}, default): the value of the branch whose key equals arg
+         LET a == CEval(e.e, rd)
+             eqs == [i \in 1..Len(e.keys) |-> CCompare("eq", a, CEval(e.keys[i], rd))]
+             bad == {i \in 1..Len(eqs) : CIsErr(eqs[i])}
+             hits == {i \in 1..Len(eqs) : ~CIsErr(eqs[i]) /\ eqs[i].v = 1}
+         IN IF CIsErr(a) THEN a
+            ELSE IF bad # {} THEN eqs[CHOOSE i \in bad : TRUE]
+            ELSE IF hits # {} THEN CEval(e.vals[CHOOSE i \in hits : \A j \in hits : i <= j], rd)
+            ELSE IF e.hasdefault = 1 THEN CEval(e.default, rd)
+            ELSE CErr("undefined")                 \* no branch selected and no default: nothing is specified
+    [] e.k \in {"any", "all"} ->   \* Python's any / all over run-time values: the truth values
+         LET vs == [i \in 1..Len(e.es) |-> CEval(e.es[i], rd)]
+             bad == {i \in 1..Len(vs) : CIsErr(vs[i])}
+         IN IF bad # {} THEN vs[CHOOSE i \in bad : TRUE]
+            ELSE IF e.k = "any" THEN CBool(\E i \in 1..Len(vs) : CTruth(vs[i]))
+            ELSE CBool(\A i \in 1..Len(vs) : CTruth(vs[i]))
     [] e.k = "slice" -> LET a == CEval(e.e, rd) IN IF CIsErr(a) THEN a ELSE CSlice(a, e.hi, e.lo)
     [] e.k = "idx" -> LET a == CEval(e.e, rd) IN IF CIsErr(a) THEN a ELSE CIndex(a, e.i)
     [] e.k = "dynidx" ->
